@@ -35,6 +35,7 @@ type Env struct {
 	pol     int // +1: the expression is a proof goal; -1: an assumption; 0: unknown
 	errs  *[]string
 	what  string
+	loopHdr *ssa.BasicBlock // the loop whose invariant is being evaluated (for ranged())
 }
 
 func (e *Env) errf(f string, a ...any) {
@@ -683,6 +684,25 @@ func (e *Env) selectField(v Val, name string, src string) Val {
 			cur.Typ = fld.Type()
 		}
 	}
+	// whatever reference a field holds was allocated before now
+	if e.now != "" && !curPtr && cur.Typ != nil && len(cur.L) > 0 {
+		ref := ""
+		switch cur.Typ.Underlying().(type) {
+		case *types.Pointer, *types.Map, *types.Chan, *types.Slice:
+			ref = cur.L[0]
+		}
+		if ref != "" && !strings.Contains(ref, "bv.") && len(ref) < 400 {
+			key := "birthfact:" + ref + "<" + e.now
+			if !vc.specDone[key] {
+				vc.specDone[key] = true
+				r := e.reach
+				if r == "" {
+					r = "true"
+				}
+				vc.assume(r, "(< (birth "+ref+") "+e.now+")")
+			}
+		}
+	}
 	return cur
 }
 
@@ -1006,6 +1026,22 @@ func (e *Env) evalCall(t *ast.CallExpr) Val {
 		v := arg(0)
 		vc.family("Chan.closed", "(Array Int Bool)")
 		return boolVal("(select " + vc.lookup(e.heap, "Chan.closed") + " " + v.T() + ")")
+	case "ranged":
+		// ranged(k), in an invariant of a `for k := range m` loop: key k was already yielded by this range
+		if e.loopHdr == nil || e.fr == nil {
+			e.errf("ranged() is only meaningful in the invariant of a map range loop")
+			return boolVal("false")
+		}
+		for _, in := range e.loopHdr.Instrs {
+			if nx, ok := in.(*ssa.Next); ok && !nx.IsString {
+				rng := nx.Iter.(*ssa.Range)
+				mt := rng.X.Type().Underlying().(*types.Map)
+				k := arg(0)
+				return boolVal("(select " + vc.lookup(e.heap, e.fr.rvFam(rng)) + " " + vc.mapKey(mt.Key(), Val{Typ: mt.Key(), L: k.L}) + ")")
+			}
+		}
+		e.errf("ranged(): the loop is not a map range")
+		return boolVal("false")
 	case "fresh":
 		// fresh(p): allocated during this call
 		v := arg(0)
